@@ -13,7 +13,8 @@ Record hstate := mkH { h_latest : Z; h_pending : list Z }.   (* pending: request
 Inductive hevent :=
 | HReq (r : Z) (known : bool)   (* GET /public/r with r >= 1 and not in the future; known: the node has round r *)
 | HWatch (r : Z)                (* the watch stream delivers the beacon of round r *)
-| HFail.                        (* the watch stream fails / closes *)
+| HFail                         (* the watch stream fails / closes *)
+| HAbandon (r : Z).             (* a request for latest+1 is parked and its client goes away before the round exists *)
 
 (* what a client receives: the beacon of some round, an empty 200 body, or 404 *)
 Inductive hanswer := ABeacon (asked got : Z) | AEmpty (asked : Z) | ANotFound (asked : Z).
@@ -28,6 +29,7 @@ Definition hstep (s : hstate) (e : hevent) : hstate * list hanswer :=
       let bad := negb (h_latest s + 1 =? r) && negb (h_latest s =? 0) in
       (mkH r [], map (fun asked => if bad then ANotFound asked else ABeacon asked r) (h_pending s))
   | HFail => (mkH 0 [], map ANotFound (h_pending s))
+  | HAbandon _ => (s, [])       (* the waiter is removed again: nothing stays behind, nobody is answered *)
   end.
 
 Fixpoint hrun (s : hstate) (es : list hevent) : hstate * list hanswer :=
